@@ -89,10 +89,55 @@ R4 = {
  "C20h": ("goroutines write a shared err variable guarded by err == nil", "two or more failing functions: data race"),
 }
 
+R5 = {
+ "C01i": ("sort fast paths (sort.Strings / Float64s / Ints) also fire for named element types", "deriveSort on []NamedString etc., or compare / hash of a map keyed by such a type"),
+ "C01j": ("IsComparable skips blank fields", "deriveUnique / deriveMem on a struct with a blank field of a non-comparable type"),
+ "C02i": ("interface case of the folded Equal-method helper ignores isPointer", "a type with Equal(that interface{}) bool reached through a pointer"),
+ "C02j": ("float leaves compared through Float64bits", "+0 against -0"),
+ "C03i": ("unexported fields of imported structs read by a shifted position", "an imported struct with a blank field before an unexported one"),
+ "C03j": ("maps of different size ordered by len(this) - len(that)", "two maps whose sizes differ by two or more"),
+ "C04i": ("float map keys hashed without the -0 to +0 normalisation", "equal maps holding the key -0 and +0"),
+ "C04j": ("complex map keys sorted with a broken less", "keys such as 1+2i and 2+1i"),
+ "C05i": ("nil map values handled before the key is copied", "a pointer-bearing key whose value is nil"),
+ "C05j": ("destination slice grown with append(dst, src[len(dst):]...)", "slice of slices with a shorter non-nil prior destination"),
+ "C06i": ("pointer-free nested struct values printed with %#v", "a plain struct with a blank field used as a value field"),
+ "C06j": ("sorted output for maps with non-basic keys through their key strings", "two keys whose pointers have equal targets"),
+ "C07i": ("only the first call per function name among calls resolving into the old file is registered", "an old file defining deriveEqual for *A, a later call for *B, -autoname"),
+ "C07j": ("calls sorted by the LINE of their parenthesis, ties in undefined-then-derived order", "two calls of one plugin on one source line, the left one defined in the old file"),
+ "C08i": ("reload fix-point state kept in the program, not reset between packages", "two packages with the textually identical pending call"),
+ "C08j": ("guard for packages without files returns instead of continuing", "a directory that holds only an external test package"),
+ "C09i": ("err reassigned per package in program.Generate", "a multi-package run where the failing package is not the last"),
+ "C09j": ("FieldStrings no longer goes through gofmt", "an undeclared type inside an unnamed non-comparable struct field"),
+ "C10i": ("rewrite buffer declared outside the file loop and never reset", "two files of one package with a renamed call each"),
+ "C10j": ("comment map filtered without updating the replaced identifier", "a comment attached to the renamed identifier"),
+ "C11i": ("argument types taken from the declared parameters of an already generated callee", "stale derived.gen.go + a new conflicting call, no flags"),
+ "C11j": ("O_TRUNC lost in the buffer refactor", "a rename that makes the file shorter"),
+ "C12i": ("prefix substitution skipped when the plugin prefix already starts with the global prefix", "-prefix=d / de / der / deri / deriv"),
+ "C12j": ("an override equal to the plugin's default is not treated as an override", "-prefix=gen -pluginprefix=equal=deriveEqual"),
+ "C13i": ("two-value Max rewritten with the derived-compare branch not flipped", "two-value deriveMax over non-plain types"),
+ "C13j": ("list Min over pointers to ordered basics with an inline test that orders nil last", "[]*int mixing nil and non-nil"),
+ "C14i": ("intersect capacity hint used as a quota", "first list repeating a common item before another common one"),
+ "C14j": ("All restyled to a single exit", "empty or nil list"),
+ "C15i": ("named results renamed with the param_<index> scheme", "named result err + an unusable parameter at the same index"),
+ "C15j": ("Uncurry flattens every level", "innermost result is itself a function"),
+ "C16i": ("Zero forgets complex kinds", "a complex result next to a failure"),
+ "C16j": ("fmap error form returns g's value for endomorphisms", "f: A -> A and a failing g with a non-zero partial value"),
+ "C17i": ("join of strings through unsafe.String(&buf[0], ..)", "a non-empty list of empty strings"),
+ "C17j": ("join of slices copies listOfLists[0] first", "an empty non-nil outer list"),
+ "C18i": ("byte-sized parameter memoized in a table indexed by the raw argument", "an int8 parameter called with a negative value"),
+ "C18j": ("hash recomputed only when length or first element address changes", "a slice overwritten in place between two calls"),
+ "C19i": ("Fmap drains the buffered part of the input on the caller's goroutine", "a buffered input whose producer is ahead when Fmap is called"),
+ "C19j": ("one WaitGroup shared by all invocations of a composed pipeline", "two overlapping runs consumed one after the other"),
+ "C20i": ("first error kept in an atomic.Value", "two failing functions with errors of different dynamic types"),
+ "C20j": ("goroutines started in a range loop over closures", "a module declaring go 1.21"),
+}
+
 out = sys.argv[1] if len(sys.argv) > 1 else "/tmp/seedout"
 ROUND = {k: 3 for k in R3}
 ROUND.update({k: 4 for k in R4})
+ROUND.update({k: 5 for k in R5})
 R3.update(R4)
+R3.update(R5)
 for sid, (change, needs) in sorted(R3.items()):
     prop = sid[:3]
     d = os.path.join(out, "verif_seeded_" + sid)
@@ -115,6 +160,9 @@ for sid, (change, needs) in sorted(R3.items()):
         "how": "; ".join(keys[:3]),
         "ran": "VERIF_REPO=<worktree> VERIF_OUT=/tmp/seedout/<id> bin/vcheck %s --tier quick -> %d VIOLATION lines" % (prop, nviol),
     }
+    if sid in ("C09j", "C15i"):
+        meta["patch"] = "superseded on /repo HEAD: a fix: commit made after the change was written repairs the code path it relies on (C09j: the structural undeclared-type check in HasUndefined rejects its trigger; C15i: its 'fix' of named results is what HEAD now does, without the renaming fault)"
+        meta["caught_by"] = ""
     if sid == "C02e":
         meta["patch"] = "patch.diff applies to /repo HEAD but is neutralised there: fix f2c59aa makes canEqual itself refuse types with an Equal method; on 918ab17 + patch the demo fails"
         meta["confirmed"] = "worktree at 918ab17 + patch: demo/run.sh exits 1; at HEAD + patch: demo exits 0 (no longer a fault)"
